@@ -56,6 +56,18 @@ type RunCtx struct {
 	Race   bool
 	Replay bool
 	Want   string // when shrinking/replaying: property whose oracles matter ("" = all)
+	Prop   string // the property whose check this run belongs to ("" = unknown)
+}
+
+// PropOr is the property a harness that serves several properties with one
+// oracle reports under: the one being checked if it is among also, else def.
+func (rc *RunCtx) PropOr(def string, also ...string) string {
+	for _, a := range also {
+		if rc.Prop == a {
+			return a
+		}
+	}
+	return def
 }
 
 // Harness runs one simulated execution per call.
